@@ -133,6 +133,14 @@ func runTCP(casesPath, tracePath, resPath string, shard, shards int) {
 	}
 	m := e2e.StartMosn(e2e.BuildConfig(lst, e2e.BuildClusters(specs), e2e.ScratchLog(tmp)))
 	defer m.Close()
+	// a cluster update is sent to every cluster of the history at once (same class of change for all)
+	publishAll := func(kind string, mc uint32) {
+		for _, sp := range specs {
+			sp.MaxConns = mc
+			publishCluster(kind, sp)
+		}
+	}
+	updated := false
 	for _, a := range addrs {
 		vh.Must(e2e.WaitListen(a, 5*time.Second), "tcp listener")
 	}
@@ -147,6 +155,7 @@ func runTCP(casesPath, tracePath, resPath string, shard, shards int) {
 		}
 		return 0
 	}
+	nowConn := uint32(maxConn) // max_connections in force
 	sample := func(why string, want map[string]int) {
 		for cl := range addrs {
 			var r map[string]int64
@@ -157,7 +166,9 @@ func runTCP(casesPath, tracePath, resPath string, shard, shards int) {
 				}
 				time.Sleep(10 * time.Millisecond)
 			}
-			tr.Emit(vh.Ev{"ev": "tsample", "why": why, "cluster": cl, "truth": truthOf(cl), "connections": r["connections"], "up_conn_active": r["up_conn_active"]})
+			_, _, mc := maxNow(cl)
+			tr.Emit(vh.Ev{"ev": "tsample", "why": why, "cluster": cl, "truth": truthOf(cl), "connections": r["connections"], "up_conn_active": r["up_conn_active"],
+				"max_connections": mc})
 		}
 	}
 	idx, n := 0, 0
@@ -171,10 +182,20 @@ func runTCP(casesPath, tracePath, resPath string, shard, shards int) {
 			return err
 		}
 		n++
+		if updated { // back to the configured threshold (while idle)
+			publishAll("primary", maxConn)
+			updated = false
+		}
 		tr.Emit(vh.Ev{"ev": "trun", "maxconn": maxConn, "ops": hc.Ops, "blackhole": bhOK})
+		nowConn = maxConn
 		conns := map[int]*tconn{}
 		want := map[string]int{"ok": 0, "ref": 0, "bh": 0}
 		sample("start", want)
+		for cl := range addrs {
+			if contain(cl) {
+				tr.Emit(vh.Ev{"ev": "note", "what": "books of an idle cluster were not zero: set back before the history starts", "cluster": cl})
+			}
+		}
 		for _, o := range hc.Ops {
 			switch o.Op {
 			case "start":
@@ -200,6 +221,13 @@ func runTCP(casesPath, tracePath, resPath string, shard, shards int) {
 					tc.done = true
 				}
 				sample("after-open:"+o.How, want)
+			case "update":
+				// cluster configuration update through the cluster manager while connections are established
+				nowConn = moveThreshold(o.To, nowConn, maxConn, maxConn)
+				publishAll(o.Kind, nowConn)
+				updated = true
+				tr.Emit(vh.Ev{"ev": "tupdate", "kind": o.Kind, "to": o.To, "maxconn": nowConn})
+				sample("after-update:"+o.Kind+":"+o.To, want)
 			case "finish":
 				tc := conns[o.R]
 				if tc == nil || tc.done {
